@@ -31,6 +31,18 @@ type Method struct {
 	Writes bool
 }
 
+// SyncParts splits Sync into kind ("none" | "whole" | "other" | "missing"), mutex and lock operation.
+func (m Method) SyncParts() (kind, mutex, op string) {
+	p := strings.SplitN(m.Sync, ":", 3)
+	if p[0] == "whole" && len(p) == 3 {
+		return "whole", p[1], p[2]
+	}
+	if p[0] == "none" || p[0] == "missing" {
+		return p[0], "", ""
+	}
+	return "other", "", strings.TrimPrefix(m.Sync, "other:")
+}
+
 type StubRow struct {
 	Action uint64
 	Impl   string // method of p.impl called by the stub method the action dispatches to
